@@ -1190,6 +1190,8 @@ class Interp(object):
             except (ValueError, AttributeError):
                 q = Fraction(repr(v))
             return Num(N.NF.const(q), 'scalar')
+        if v is Ellipsis:
+            return Const(Ellipsis)
         raise Unsupported('constant %r' % (v,), node)
 
     def ev_Name(self, node, env):
@@ -1629,6 +1631,8 @@ class Interp(object):
         """-> view descriptor for a basic index, ('mask', cond) for a boolean mask"""
         if idx[0] == 'value':
             v = idx[1]
+            if isinstance(v, Const) and v.v is Ellipsis:
+                return ('all',)
             if isinstance(v, Mask):
                 return ('mask', v.cond)
             if is_const_num(v):
